@@ -5,7 +5,7 @@
 (* action binds the logged fields and evaluates the property rules of       *)
 (* DESIGN.md Appendix B against the Ref layer.                              *)
 (***************************************************************************)
-EXTENDS TraceBase, Compress, Txt, Values, Store, Mdns, Builder
+EXTENDS TraceBase, Compress, Txt, Values, Store, Mdns, Builder, Resolver
 
 VARIABLES l,         \* index of the next event to consume
           st         \* abstract state carried through a session (store / mDNS events): see Reset
@@ -602,6 +602,20 @@ TraceRespRun ==
        /\ Rule(l, "E2EReplied", (lower # {} /\ q.attempts # <<>>) => \E ai \in 1 .. Len(q.attempts) : q.attempts[ai].uni # <<>> \/ q.attempts[ai].multi # <<>>,
                <<"a query that must be answered got no reply in any attempt", qi, Ev.flavour>>)
 
+(* ResolverRun (diagnostic): script e.script (Gen_Resolver) was multicast to a real OneShotMdnsResolver of flavour   *)
+(* e.flavour that was waiting in query_service_address ("addr") / query_service_address_and_port ("addr_port");      *)
+(* e.out is what it returned.  It must be what Resolver.tla computes for the script, or -- a datagram may be lost --  *)
+(* for the script with some datagrams left out.                                                                      *)
+RECURSIVE SubScripts(_)
+SubScripts(s) == IF s = <<>> THEN {<<>>}
+                 ELSE LET rest == SubScripts(Tail(s)) IN rest \cup {<<Head(s)>> \o r : r \in rest}
+TraceResolverRun ==
+  /\ Ev.ev = "ResolverRun"
+  /\ Rule(l, "NoPanic", Ev.out[1] # "panic", <<"one-shot resolver", Ev.flavour, Ev.mode, Ev.out>>)
+  /\ Rule(l, "ResolverOutcome",
+          Ev.out[1] \in {"inconclusive"} \/ \E sub \in SubScripts(Ev.script) : Ev.out = Outcome(Ev.mode, sub),
+          <<Ev.flavour, Ev.mode, "returned", Ev.out, "model", Outcome(Ev.mode, Ev.script)>>)
+
 (* ApiTrace (C02, C08): an API history of the builder machine (Builder.tla) was replayed    *)
 (* on a real Packet; e.states[i] is the projection of the real packet after call i       *)
 TraceApi ==
@@ -765,7 +779,7 @@ Stateless ==
            \/ TraceNameNew \/ TraceLabelNew \/ TraceNameRel
            \/ TraceTxtSplit \/ TraceTxtAttrs \/ TraceTxtRaw \/ TraceTxtLong \/ TraceCStrNew
            \/ TraceDiscover \/ TraceEscape \/ TraceDatagram \/ TraceNetRun
-           \/ TraceApi \/ TraceRespRun \/ TraceFramed \/ TraceE2E \/ TraceSvcbApi \/ TraceValueCmp \/ TraceParse \/ TracePeek \/ TraceInspect \/ TraceSinkBuild \/ TraceRoundTrip \/ TraceReparse
+           \/ TraceApi \/ TraceResolverRun \/ TraceRespRun \/ TraceFramed \/ TraceE2E \/ TraceSvcbApi \/ TraceValueCmp \/ TraceParse \/ TracePeek \/ TraceInspect \/ TraceSinkBuild \/ TraceRoundTrip \/ TraceReparse
            \/ TraceCodeConv \/ TraceMnemonics \/ TraceMatchType \/ TraceMatchClass
 
 Next == /\ l <= Len(Rec)
